@@ -5,6 +5,7 @@ HERE = os.path.dirname(os.path.abspath(__file__)); sys.path.insert(0, HERE)
 from gen import Gen, Pool, py_proto, lit_proto, flt_proto
 from canon import val_proto, errors_proto, canon_model_val, canon_errors
 from common import model, build_module, fresh, proto_py, is_json, snapshot, containers, value_containers, case_hash, OTHERS
+from apischema.cache import reset as _cache_reset
 
 HEADER = Pool.HEADER
 
@@ -243,6 +244,7 @@ def gen_cases(prop, seed, n_types, per):
     mod = build_module(pool.source(), f"{prop}_{seed}"); ns = dict(vars(mod))
     cases = []
     for t in types:
+        _cache_reset()      # typing-equal types (Literal[1, True] / Literal[True, 1]) share one cache entry: finding KF13, not this property
         tp = eval(t.py, ns)
         for _ in range(per):
             d = g.valid(t)
@@ -494,6 +496,7 @@ def ser_part(seed, budget):
     mod = build_module(pool.source(), f"C08ser_{seed}"); ns = dict(vars(mod))
     failures, n, distinct = [], 0, set()
     for t in types:
+        _cache_reset()      # typing-equal types (Literal[1, True] / Literal[True, 1]) share one cache entry: finding KF13, not this property
         if ambiguous_union(t) or has_unique(t): continue
         tp = eval(t.py, ns)
         for _ in range(4):
@@ -657,7 +660,7 @@ KF = {
                                       and '"dn"' in json.dumps(c["d"]),
     # a mapping item whose key and value are both invalid: MappingMethod evaluates the value first, MappingCheckOnly the
     # key first; each reports only one of the two errors, at the same location
-    "KF30": lambda c, why, im, k_ok: why == ["result-depends-on-no_copy"] and k_ok is True and "mapping" in c["features"]
+    "KF30": lambda c, why, im, k_ok: why == ["result-depends-on-no_copy"] and k_ok is not False and "mapping" in c["features"]
                                      and _same_locs(c.get("info", {}).get("differs", {})),
     # a `properties(pattern=...)` field matches its pattern against every remaining key: a non-string key raises TypeError
     "KF45": lambda c, why, im, k_ok: _crash(why, "TypeError") and k_ok is not False and "aggregate-pattern" in c["features"]
